@@ -222,6 +222,7 @@ func main() {
 		stride  = flag.Int("stride", 1, "take every stride-th document")
 		offset  = flag.Int("offset", 0, "start at this document")
 		deep    = flag.Int("deep", 200, "nesting depth of the generated deep documents")
+		sysEach = flag.Int("sysevery", 4, "every n-th document also goes through sys.System")
 	)
 	flag.Parse()
 	core.DefaultLogger = core.NewSimpleLogger(ioutil.Discard)
@@ -272,7 +273,7 @@ func main() {
 		for _, use := range uses {
 			for _, state := range []string{"indexed", "linear"} {
 				vias := []string{"direct"}
-				if di%4 == 0 || doc["schedule"] != nil {
+				if di%*sysEach == 0 || doc["schedule"] != nil {
 					vias = append(vias, "system")
 				}
 				for _, via := range vias {
